@@ -124,7 +124,9 @@ func (p *genericPruner) Prune(latestVersion uint64) error {
 		// Figure out the eldest version currently present in the tree.
 		p.earliestVersion = p.ndb.GetEarliestVersion()
 		// Initially, the earliest version is the last retained version.
+		p.Lock()
 		p.lastRetainedVersion = p.earliestVersion
+		p.Unlock()
 	}
 	if p.earliestVersion == 0 {
 		return nil
